@@ -13,7 +13,7 @@ RULE = ("self-describing scripts judged against a Python dict printed in UTF-8-b
         "`[\"k\"]` chosen at random wherever k is an identifier, plus the predicted errors {read missing, op-assign missing, "
         "non-string name, spread of a non-object}; keys on the read and write path are also written as computed expressions (variable, concatenation, call, interpolated literal); a spread-only literal `{o..}` is mutated and compared with `o` by `===` and by content; `for kv in o` pairs are kept in an outer list and printed after the loop. Stream `for-kept`: the same for lists and strings. non-trivial = distinct (operation-kind sequence, outcome class)")
 ASSUMPTIONS = ["the key `_` is exercised as a property name in literals, reads and writes, but never as the key of a "
-               "destructuring pair (known quirk K3)",
+               "destructuring pair (that is C13's stream)",
                "values stored in the objects are null, booleans, small integers, short strings, flat lists and one-level objects"]
 
 KEYS = ["a", "A", "b", "", "a b", "é", "_", "0"]
